@@ -132,13 +132,18 @@ class Report(object):
             line, stmt = node_or_line, None
         f = Finding(rid, construct, file, line, func, msg, stmt, extra)
         self.distinct.add((rid, construct))
+        for old in self.violations:
+            if old.key == f.key and old.line == f.line and old.msg == f.msg:
+                return old      # same finding reached along another path
         self.violations.append(f)
         return f
 
     def info(self, rid, msg):
         self.infos.append('[%s] %s' % (rid, msg))
 
-    def note(self, kind, item):
+    def note(self, kind, item=None):
+        if item is None:
+            kind, item = 'notes', kind
         self.analysed.setdefault(kind, [])
         if item not in self.analysed[kind]:
             self.analysed[kind].append(item)
